@@ -9,7 +9,11 @@ def probes(rep, thorough):
     store lost / gained, what the arc recorded and what the other side was handed / gave up are the same (volume and
     every additive pollutant)"""
     import mon_probe
-    return mon_probe.run(rep, thorough, pid="C04")
+    import mon_route
+    seen = mon_probe.run(rep, thorough, pid="C04")
+    # every tagged push a component can emit, sent to every class it can meet: what is not handed back is in the target
+    mon_route.run(rep, thorough, pid="C04")
+    return seen
 
 RULE = ("correspondence: random operation sequences (pushes incl. forced/dry-mass/sub-epsilon, pulls, pollutant pulls, "
         "evaporation, checks, balance calls, timestep ends with varying temperature) on Tank/ResidenceTank/DecayTank, "
@@ -17,7 +21,7 @@ RULE = ("correspondence: random operation sequences (pushes incl. forced/dry-mas
         "part / none, varying per call) neighbours, over random pollutant partitions; the whole observable state after "
         "every operation is compared exactly with the Gallina model. monitors: the C04 clauses evaluated directly on the "
         "implementation after every operation of fresh sequences. non-trivial = distinct sequence of >= 3 operations. "
-        "family net: random networks of the real node classes over plain arcs (object of the network-level theorem), every store and arc record compared exactly after every operation. probes: random whole models after a run (every third after Model.reinit() and another run): a push and a pull over every plain arc next to a store-backed node, store change = arc record = amount handed over, volume and every additive pollutant")
+        "family net: random networks of the real node classes over plain arcs (object of the network-level theorem), every store and arc record compared exactly after every operation. probes: random whole models after a run (every third after Model.reinit() and another run): a push and a pull over every plain arc next to a store-backed node, store change = arc record = amount handed over, volume and every additive pollutant; every tagged push the library emits, sent over an arc to an instance of every class it can meet (incl. a Land without impervious surfaces): carried = offer - remainder is in the target's stores")
 
 if __name__ == "__main__":
     sys.exit(comp_check.run("C04", "tank arc qarc altarc qtank".split(), RULE,
